@@ -24,6 +24,9 @@ checks={
  "C15":dict(engine="E3",cat="exploration",tech=E3T,
    text="Hash == CRC-32/IEEE, Hash64/Hash64v2 == reference CRC variants, Hash64v2 == Hash64V2, murmur 32/64 == independent re-implementations, HashCode == polynomial, on every byte string of length <= 2 (3 thorough) and 1200 longer family members; MurmurHash on 2^24 (2^32) integers; base-32 identifier text is a bijection with the documented forms on [-2^20,2^20] (2^26), +-32^k+-64 and extremes; compose/split and IPv4 conversions are mutual inverses; SHA-256 digests of the output tables pin the values",
    note="murmur references are re-implementations (no external spec offline); golden digests were taken from the pinned tree",ref="DESIGN.md 4 C15"),
+ "C16":dict(engine="E2+E1",cat="model_checking",tech=ES+"; "+MC,
+   text="defaults observed on a fresh GetInstance; every Append/SendDirect history up to length 3 (4) over record sizes around the thresholds, record-time steps 0/maxWait-1/maxWait, five settings and both client behaviours (consuming / retaining) on the real sender: exactly-once, in order, decodable, RecordCount, compression iff payload >= threshold, immutability after hand-over, flush deadlines; every schedule (preemption bound 1, thorough 2) of 1-2 producers, the real background goroutine on virtual time and a stopper (after drain, or at any point): nothing accepted before the stop is left behind",
+   note="virtual time; in-memory recording client; ApplyConfig switching is exercised through the hook-built settings only",ref="DESIGN.md 4 C16"),
  "C19":dict(engine="E3",cat="exploration",tech=E3T,
    text="every day of 2000-2099 x 16 boundary instants (thorough: every second of the century): all calendar helpers equal time.Time in UTC and the unit functions equal floor((t-base)/step); every pattern up to length 4 (5) over the seven field letters and five literals x 40 instants x 6 clock answers: Parse(FormatTime(t)) agrees with t on every field present in the pattern",
    note="fields absent from a pattern come from the clock and are not compared; clock is an enumerated environment answer through the vtime seam",ref="DESIGN.md 4 C19"),
